@@ -82,6 +82,7 @@ func (s *sched) fireNextTimer() {
 		clock = t.at
 	}
 	s.res.TimerFires++
+	s.lastFire = s.step
 	switch t.kind {
 	case tSleep:
 		s.wakeG(t.g, reply{})
